@@ -428,4 +428,106 @@ theorem lzwRunB_len : ∀ (fuel : Nat) (st : LzwSt) (rest : Bytes) (buff bpos m 
 theorem lzwInit_bound : LzwBound lzwInit 1 :=
   ⟨(by intro e he; cases he), (by intro p hp; cases hp), Nat.le_refl 1⟩
 
+/-! ### predictors on arbitrary parameters -/
+
+theorem pngRowLoop_len (ft bpp : Nat) (above : Bytes) : ∀ (enc raw out : Bytes),
+    pngRowLoop ft bpp above raw enc = .ok out → out.length = raw.length + enc.length := by
+  intro enc
+  induction enc with
+  | nil => intro raw out h; simp [pngRowLoop] at h; subst h; simp
+  | cons x xs ih =>
+    intro raw out h
+    simp only [pngRowLoop] at h
+    split at h
+    · have := ih _ _ h; simp only [List.length_append, List.length_cons, List.length_nil] at this ⊢; omega
+    · split at h
+      · split at h
+        · cases h
+        · have := ih _ _ h; simp only [List.length_append, List.length_cons, List.length_nil] at this ⊢; omega
+      · split at h
+        · have := ih _ _ h; simp only [List.length_append, List.length_cons, List.length_nil] at this ⊢; omega
+        · cases h
+
+theorem pngRow_len (ft : UInt8) (bpp : Nat) (above enc out : Bytes) (h : pngRow ft bpp above enc = .ok out) :
+    out.length ≤ enc.length := by
+  unfold pngRow at h
+  split at h
+  · cases h; exact Nat.le_refl _
+  · split at h
+    · cases h; simp only [List.length_zipWith]; omega
+    · split at h
+      · have := pngRowLoop_len _ _ _ _ _ _ h; simp at this; omega
+      · cases h
+
+theorem pngRows_len (nbytes bpp : Nat) : ∀ (fuel : Nat) (above data out : Bytes),
+    pngRows nbytes bpp fuel above data = .ok out → out.length ≤ data.length := by
+  intro fuel
+  induction fuel with
+  | zero => intro above data out h; simp [pngRows] at h; subst h; simp
+  | succ f ih =>
+    intro above data out h
+    cases data with
+    | nil => simp [pngRows] at h; subst h; simp
+    | cons ft rest =>
+      simp only [pngRows] at h
+      split at h
+      · cases h
+      · rename_i raw hraw
+        split at h
+        · rename_i r hr
+          cases h
+          have h1 := pngRow_len _ _ _ _ _ hraw
+          have h2 := ih _ _ _ hr
+          simp only [List.length_append, List.length_take, List.length_drop, List.length_cons] at h1 h2 ⊢
+          omega
+        · cases h
+
+theorem apply_png_predictor_len (colors columns bpc : Nat) (data out : Bytes)
+    (h : apply_png_predictor colors columns bpc data = .ok out) : out.length ≤ data.length := by
+  unfold apply_png_predictor at h
+  split at h
+  · cases h
+  · exact pngRows_len _ _ _ _ _ _ h
+
+theorem tiffRow_len (bpp : Nat) : ∀ (xs raw : Bytes), (tiffRow bpp raw xs).length = raw.length + xs.length := by
+  intro xs
+  induction xs with
+  | nil => intro raw; simp [tiffRow]
+  | cons x xs ih =>
+    intro raw
+    simp only [tiffRow]
+    rw [ih]
+    simp only [List.length_append, List.length_cons, List.length_nil]
+    omega
+
+theorem tiffRows_len (nbytes bpp : Nat) : ∀ (fuel : Nat) (data out : Bytes),
+    tiffRows nbytes bpp fuel data = .ok out → out.length ≤ data.length := by
+  intro fuel
+  induction fuel with
+  | zero => intro data out h; simp [tiffRows] at h; subst h; simp
+  | succ f ih =>
+    intro data out h
+    cases data with
+    | nil => simp [tiffRows] at h; subst h; simp
+    | cons d ds =>
+      simp only [tiffRows] at h
+      split at h
+      · cases h
+      · split at h
+        · rename_i r hr
+          cases h
+          have h2 := ih _ _ hr
+          simp only [List.length_append, tiffRow_len, List.length_take, List.length_drop, List.length_nil] at h2 ⊢
+          omega
+        · cases h
+
+theorem apply_tiff_predictor_len (colors columns bpc : Nat) (data out : Bytes)
+    (h : apply_tiff_predictor colors columns bpc data = .ok out) : out.length ≤ data.length := by
+  unfold apply_tiff_predictor at h
+  split at h
+  · cases h
+  · split at h
+    · cases h
+    · exact tiffRows_len _ _ _ _ _ h
+
 end PdfVerif.Filters
